@@ -23,6 +23,7 @@ type normalizer struct {
 	ub     map[*Term]*big.Int
 	memo   map[*Term]*Term
 	linMem map[*Term]*linear
+	pendingEqs [][2]*Term
 }
 
 type linear struct {
@@ -60,6 +61,9 @@ func newNormalizer(ground []*Term) *normalizer {
 				if _, dup := n.defs[r]; !dup {
 					n.defs[r] = l
 				}
+			} else if l.Sort == BV64 {
+				// a linear equation between sums: solve it for a generated variable that occurs once
+				n.pendingEqs = append(n.pendingEqs, [2]*Term{l, r})
 			}
 		case "bvule":
 			if a.Args[1].IsConst() {
@@ -95,9 +99,79 @@ func newNormalizer(ground []*Term) *normalizer {
 			rel(a)
 		}
 	}
+	// linear equations a1 + ... = b1 + ...: solved for a generated variable of coefficient one that
+	// is not defined yet (an equivalence of bit-vector arithmetic: x + r = s  <=>  x = s - r)
+	for _, eq := range n.pendingEqs {
+		flat := func(t *Term, sign int64, acc map[*Term]int64, c *big.Int) {
+			var rec func(t *Term, sign int64)
+			rec = func(t *Term, sign int64) {
+				switch {
+				case t.IsConst():
+					if sign > 0 {
+						c.Add(c, t.Val)
+					} else {
+						c.Sub(c, t.Val)
+					}
+				case t.Op == "bvadd":
+					for _, a := range t.Args {
+						rec(a, sign)
+					}
+				case t.Op == "bvsub":
+					rec(t.Args[0], sign)
+					rec(t.Args[1], -sign)
+				case t.Op == "bvneg":
+					rec(t.Args[0], -sign)
+				default:
+					acc[t] += sign
+				}
+			}
+			rec(t, sign)
+		}
+		acc := map[*Term]int64{}
+		c := new(big.Int)
+		flat(eq[0], 1, acc, c)
+		flat(eq[1], -1, acc, c) // acc + c == 0
+		var cand *Term
+		for a, m := range acc {
+			if (m == 1 || m == -1) && isGen(a) && n.defs[a] == nil {
+				if cand == nil || a.ID > cand.ID {
+					cand = a
+				}
+			}
+		}
+		if cand == nil {
+			continue
+		}
+		// cand*m + rest + c == 0  =>  cand == -(rest + c)/m
+		sign := int64(-1)
+		if acc[cand] == -1 {
+			sign = 1
+		}
+		l := &linear{c: new(big.Int), atoms: map[*Term]int64{}}
+		for a, m := range acc {
+			if a != cand && m != 0 {
+				l.atoms[a] = sign * m
+			}
+		}
+		if sign > 0 {
+			l.c.Set(c)
+		} else {
+			l.c.Neg(c)
+		}
+		l.c.Mod(l.c, bigPow2(64))
+		rhs := l.build()
+		if !mentions(rhs, cand) {
+			n.defs[cand] = rhs
+		}
+	}
 	// cyclic definitions (v1 = v2 + x, v2 = v1 - x) are avoided by keeping only definitions whose
 	// right-hand side does not (transitively) lead back
+	var dvs []*Term
 	for v := range n.defs {
+		dvs = append(dvs, v)
+	}
+	sort.Slice(dvs, func(i, j int) bool { return dvs[i].ID < dvs[j].ID })
+	for _, v := range dvs {
 		if n.reaches(n.defs[v], v, map[*Term]bool{}) {
 			delete(n.defs, v)
 		}
@@ -178,6 +252,9 @@ func (n *normalizer) lin(t *Term) *linear {
 			add(t.Args[0], sign, depth+1)
 			add(t.Args[1], -sign, depth+1)
 			return
+		case "bvneg":
+			add(t.Args[0], -sign, depth+1)
+			return
 		}
 		a := n.rewrite(t)
 		l.atoms[a] += sign
@@ -196,7 +273,13 @@ func (l *linear) build() *Term {
 	for a := range l.atoms {
 		as = append(as, a)
 	}
-	sort.Slice(as, func(i, j int) bool { return as[i].ID < as[j].ID })
+	sort.Slice(as, func(i, j int) bool {
+		pi, pj := l.atoms[as[i]] > 0, l.atoms[as[j]] > 0
+		if pi != pj {
+			return pi // positive summands first, so that negatives become subtractions
+		}
+		return as[i].ID < as[j].ID
+	})
 	var t *Term
 	for _, a := range as {
 		m := l.atoms[a]
@@ -338,14 +421,20 @@ func (n *normalizer) rewrite(t *Term) *Term {
 	switch {
 	case t.Op == "forall" || t.Op == "exists":
 		r = t
-	case t.Sort == BV64 && (t.Op == "bvadd" || t.Op == "bvsub" || (t.Op == "var" && n.defs[t] != nil)):
+	case t.Sort == BV64 && (t.Op == "bvadd" || t.Op == "bvsub" || t.Op == "bvneg" || (t.Op == "var" && n.defs[t] != nil)):
 		r = n.lin(t).build()
 	case (t.Op == "bvult" || t.Op == "bvule") && t.Args[0].Sort == BV64:
 		if c := n.cmp(t.Op, t.Args[0], t.Args[1]); c != nil {
 			r = c
+		} else if c := n.cmpExact(t.Op, t.Args[0], t.Args[1]); c != nil {
+			r = c
+		} else if c := n.cmpMixed(t.Op, t.Args[0], t.Args[1]); c != nil {
+			r = c
 		}
 	case t.Op == "=" && t.Args[0].Sort == BV64:
 		if c := n.cmp("=", t.Args[0], t.Args[1]); c != nil {
+			r = c
+		} else if c := n.cmpExact("=", t.Args[0], t.Args[1]); c != nil {
 			r = c
 		}
 	}
@@ -385,4 +474,279 @@ func NormalizeQuery(asserts []*Term) []*Term {
 		out = append(out, r)
 	}
 	return out
+}
+
+// ---------------------------------------------------------------------------------------------
+// exactness: when is the bit-vector value of a term equal to the mathematical value of its
+// linear form (which may contain subtractions after definitions have been substituted)?
+
+func signedConst(c *big.Int) *big.Int {
+	if c.Cmp(bigPow2(63)) >= 0 {
+		return new(big.Int).Sub(c, bigPow2(64))
+	}
+	return new(big.Int).Set(c)
+}
+
+// absBound bounds |sum| of a linear form; false when an atom has no known upper bound.
+func (n *normalizer) absBound(l *linear) (*big.Int, bool) {
+	tot := new(big.Int).Abs(signedConst(l.c))
+	for a, m := range l.atoms {
+		u, ok := n.upper(a)
+		if !ok {
+			return nil, false
+		}
+		tot.Add(tot, new(big.Int).Mul(u, big.NewInt(abs64(m))))
+	}
+	if tot.Cmp(two62) >= 0 {
+		return nil, false
+	}
+	return tot, true
+}
+
+// exactBound: the bit-vector value of t equals the mathematical value of lin(t) and lies in [0, ub].
+func (n *normalizer) exactBound(t *Term, depth int) (*big.Int, bool) {
+	if depth > 64 {
+		return nil, false
+	}
+	if t.IsConst() {
+		if t.Val.Cmp(two62) < 0 {
+			return t.Val, true
+		}
+		return nil, false
+	}
+	if d, ok := n.defs[t]; ok {
+		// t is a variable with a known range that is defined by d: lin(d) = value(t) modulo 2^64,
+		// |lin(d)| < 2^62 and 0 <= value(t) < 2^62, so the two are equal as integers
+		if u, ok := n.ub[t]; ok && u.Cmp(two62) < 0 {
+			if _, ok := n.absBound(n.lin(d)); ok {
+				return u, true
+			}
+		}
+		return n.exactBound(d, depth+1)
+	}
+	if t.Op == "bvadd" {
+		tot := new(big.Int)
+		for _, a := range t.Args {
+			u, ok := n.exactBound(a, depth+1)
+			if !ok {
+				return nil, false
+			}
+			tot.Add(tot, u)
+		}
+		if tot.Cmp(two62) < 0 {
+			return tot, true
+		}
+		return nil, false
+	}
+	if t.Op == "bvsub" {
+		return nil, false
+	}
+	if u, ok := n.upper(t); ok && u.Cmp(two62) < 0 {
+		return u, true
+	}
+	return nil, false
+}
+
+// cmpExact compares two exact terms as integers: negative summands are moved to the other side,
+// common summands are cancelled, and the comparison is emitted on sums without subtraction.
+func (n *normalizer) cmpExact(op string, a, b *Term) *Term {
+	if _, ok := n.exactBound(a, 0); !ok {
+		return nil
+	}
+	if _, ok := n.exactBound(b, 0); !ok {
+		return nil
+	}
+	la, lb := n.lin(a), n.lin(b)
+	if _, ok := n.absBound(la); !ok {
+		return nil
+	}
+	if _, ok := n.absBound(lb); !ok {
+		return nil
+	}
+	x := &linear{c: new(big.Int), atoms: map[*Term]int64{}}
+	y := &linear{c: new(big.Int), atoms: map[*Term]int64{}}
+	// a - b as one form
+	d := map[*Term]int64{}
+	for t, m := range la.atoms {
+		d[t] += m
+	}
+	for t, m := range lb.atoms {
+		d[t] -= m
+	}
+	for t, m := range d {
+		if m > 0 {
+			x.atoms[t] = m
+		} else if m < 0 {
+			y.atoms[t] = -m
+		}
+	}
+	dc := new(big.Int).Sub(signedConst(la.c), signedConst(lb.c))
+	if dc.Sign() >= 0 {
+		x.c.Set(dc)
+	} else {
+		y.c.Neg(dc)
+	}
+	if _, ok := n.absBound(x); !ok {
+		return nil
+	}
+	if _, ok := n.absBound(y); !ok {
+		return nil
+	}
+	tx, ty := x.build(), y.build()
+	if op == "=" {
+		return Eq(tx, ty)
+	}
+	return BVCmp(op, tx, ty)
+}
+
+// posParts splits a linear form into its positive and negative parts P and N (both without
+// subtraction), so that the form is P - N as an integer.
+func posParts(l *linear) (p, nn *linear) {
+	p = &linear{c: new(big.Int), atoms: map[*Term]int64{}}
+	nn = &linear{c: new(big.Int), atoms: map[*Term]int64{}}
+	for a, m := range l.atoms {
+		if m > 0 {
+			p.atoms[a] = m
+		} else if m < 0 {
+			nn.atoms[a] = -m
+		}
+	}
+	sc := signedConst(l.c)
+	if sc.Sign() >= 0 {
+		p.c.Set(sc)
+	} else {
+		nn.c.Neg(sc)
+	}
+	return
+}
+
+func addLin(a, b *linear) *linear {
+	r := &linear{c: new(big.Int).Add(a.c, b.c), atoms: map[*Term]int64{}}
+	for t, m := range a.atoms {
+		r.atoms[t] += m
+	}
+	for t, m := range b.atoms {
+		r.atoms[t] += m
+	}
+	return r
+}
+
+// cmpPos compares two subtraction-free bounded sums as integers (common summands cancelled).
+func (n *normalizer) cmpPos(op string, x, y *linear) *Term {
+	if _, ok := n.absBound(x); !ok {
+		return nil
+	}
+	if _, ok := n.absBound(y); !ok {
+		return nil
+	}
+	rx := &linear{c: new(big.Int).Set(x.c), atoms: map[*Term]int64{}}
+	ry := &linear{c: new(big.Int).Set(y.c), atoms: map[*Term]int64{}}
+	for t, m := range x.atoms {
+		rx.atoms[t] = m
+	}
+	for t, m := range y.atoms {
+		ry.atoms[t] = m
+	}
+	for t, m := range x.atoms {
+		if k, ok := ry.atoms[t]; ok {
+			c := m
+			if k < c {
+				c = k
+			}
+			rx.atoms[t] -= c
+			ry.atoms[t] -= c
+			if rx.atoms[t] == 0 {
+				delete(rx.atoms, t)
+			}
+			if ry.atoms[t] == 0 {
+				delete(ry.atoms, t)
+			}
+		}
+	}
+	if rx.c.Cmp(ry.c) >= 0 {
+		rx.c.Sub(rx.c, ry.c)
+		ry.c.SetInt64(0)
+	} else {
+		ry.c.Sub(ry.c, rx.c)
+		rx.c.SetInt64(0)
+	}
+	tx, ty := rx.build(), ry.build()
+	if op == "=" {
+		return Eq(tx, ty)
+	}
+	return BVCmp(op, tx, ty)
+}
+
+// cmpMixed handles a comparison between a "wrapped difference" W = (P - N) mod 2^64 (P, N bounded
+// sums) and an exact bounded term Y < 2^62. If P < N the bit-vector value of W is at least
+// 2^64 - 2^62, larger than every exact term, hence:
+//   W <  Y  <=>  N <= P and P <  N + Y        Y <  W  <=>  P < N or N + Y <  P
+//   W <= Y  <=>  N <= P and P <= N + Y        Y <= W  <=>  P < N or N + Y <= P
+//   W =  Y  <=>  N <= P and P =  N + Y
+func (n *normalizer) cmpMixed(op string, a, b *Term) *Term {
+	la, lb := n.lin(a), n.lin(b)
+	if _, ok := n.absBound(la); !ok {
+		return nil
+	}
+	if _, ok := n.absBound(lb); !ok {
+		return nil
+	}
+	_, ea := n.exactBound(a, 0)
+	_, eb := n.exactBound(b, 0)
+	neg := func(l *linear) bool {
+		for _, m := range l.atoms {
+			if m < 0 {
+				return true
+			}
+		}
+		return signedConst(l.c).Sign() < 0
+	}
+	switch {
+	case !ea && eb && neg(la):
+		p, nn := posParts(la)
+		py, ny := posParts(lb)
+		if len(ny.atoms) > 0 || ny.c.Sign() != 0 {
+			// Y itself has a negative part but is exact: fold it in: W ? Y  with Y = py - ny
+			// is handled by moving ny to the other side of each integer comparison
+		}
+		ge := n.cmpPos("bvule", nn, p) // N <= P
+		if ge == nil {
+			return nil
+		}
+		var main *Term
+		switch op {
+		case "bvult", "bvule":
+			main = n.cmpPos(op, addLin(p, ny), addLin(nn, py)) // P + ny ? N + py
+		case "=":
+			main = n.cmpPos("=", addLin(p, ny), addLin(nn, py))
+		}
+		if main == nil {
+			return nil
+		}
+		return And(ge, main)
+	case ea && !eb && neg(lb):
+		p, nn := posParts(lb)
+		px, nx := posParts(la)
+		lt := n.cmpPos("bvult", p, nn) // P < N
+		if lt == nil {
+			return nil
+		}
+		var main *Term
+		switch op {
+		case "bvult", "bvule":
+			main = n.cmpPos(op, addLin(nn, px), addLin(p, nx)) // N + px ? P + nx
+			if main == nil {
+				return nil
+			}
+			return Or(lt, main)
+		case "=":
+			ge := n.cmpPos("bvule", nn, p)
+			main = n.cmpPos("=", addLin(nn, px), addLin(p, nx))
+			if ge == nil || main == nil {
+				return nil
+			}
+			return And(ge, main)
+		}
+	}
+	return nil
 }
